@@ -6,6 +6,7 @@ import (
 	"net"
 
 	"hop.computer/hop/certs"
+	"hop.computer/hop/keys"
 	"hop.computer/hop/transport"
 	"verifharness/hv"
 )
@@ -510,4 +511,95 @@ func namesOf(id *Ident) string {
 		s += fmt.Sprintf("[%s %q]", idTypeName(b.Type), b.Label)
 	}
 	return s
+}
+
+// C01KeySetHistories: the authorized-keys set changes over time (AddKey / RemoveKey). A party is
+// admitted under the authorized-keys policy only if its certified key is in the set NOW, i.e.
+// according to the history read as set operations.
+func (w *World) C01KeySetHistories() {
+	type hist struct {
+		name string
+		ops  string // a = AddKey, r = RemoveKey (of the counterpart's key), x/y = Add/Remove of an unrelated key
+	}
+	hists := []hist{{"never added", ""}, {"added", "a"}, {"added then removed", "ar"}, {"added, removed, added again", "ara"},
+		{"removed without ever being added", "r"}, {"added twice, removed once", "aar"}, {"added twice, removed twice", "aarr"},
+		{"removed, then added", "ra"}, {"added, removed, removed, added, removed", "arrar"}, {"another key added and removed around it", "xary"}}
+	inSet := func(ops string) bool {
+		in := false
+		for _, o := range ops {
+			switch o {
+			case 'a':
+				in = true
+			case 'r':
+				in = false
+			}
+		}
+		return in
+	}
+	other := keys.GenerateNewX25519KeyPair()
+	apply := func(v *transport.VerifyConfig, pk keys.DHPublicKey, ops string) {
+		for _, o := range ops {
+			switch o {
+			case 'a':
+				v.AuthKeys.AddKey(pk)
+			case 'r':
+				v.AuthKeys.RemoveKey(pk)
+			case 'x':
+				v.AuthKeys.AddKey(other.Public)
+			case 'y':
+				v.AuthKeys.RemoveKey(other.Public)
+			}
+		}
+	}
+	// self-signed counterparts: only the authorized-keys branch can admit them, also under "both"
+	for _, hidden := range []bool{false, true} {
+		mode := map[bool]string{false: "discoverable", true: "hidden"}[hidden]
+		for _, pol := range []string{PolAuthKeys, PolBoth} {
+			for _, h := range hists {
+				may := inSet(h.ops)
+				// --- the server verifies the client
+				cli := w.P.SelfSigned("carol")
+				sv := w.P.Verify(pol, "", nil, false)
+				apply(sv, cli.Leaf.PublicKey, h.ops)
+				srv := NewSrv(SingleConfig(w.Srv, sv, hidden))
+				ccfg := cli.ClientConfig(w.P.Verify(PolStore, w.SrvName, nil, false))
+				if hidden {
+					ccfg.ServerKEMKey = &w.Srv.KEM.Public
+				}
+				r := RunHandshake(srv, ccfg, w.NextAddr(), nil)
+				offered := r.Handle != nil
+				c2s, _ := r.Probe(srv)
+				desc := fmt.Sprintf("%s: server(policy=%s) <- self-signed client whose key was %s in the authorized set (ops %q)", mode, pol, h.name, h.ops)
+				ok, sig, what := true, "", ""
+				switch {
+				case (offered || c2s) && !may:
+					ok, sig = false, "C01:server-admits-client-whose-key-is-not-in-the-authorized-set"
+					what = fmt.Sprintf("Accept offered=%v, data delivered=%v although the client's key is not in the authorized set now (%s)", offered, c2s, h.name)
+				case may && !(offered && c2s):
+					ok, sig, what = false, "C01:honest-client-rejected", fmt.Sprintf("client whose key is in the set was not served (offered=%v data=%v err=%v)", offered, c2s, r.Err)
+				}
+				specCase("C01", "authorized-set-history/server-verifies-client/"+mode, desc, ok, sig, what, !may)
+				r.Close()
+				// --- the client verifies the server
+				sid := w.P.SelfSigned(w.SrvName)
+				cvv := w.P.Verify(pol, w.SrvName, nil, false)
+				apply(cvv, sid.Leaf.PublicKey, h.ops)
+				srv2 := NewSrv(SingleConfig(sid, w.P.Verify(PolStore, "", nil, false), hidden))
+				ccfg2 := w.Cli.ClientConfig(cvv)
+				if hidden {
+					ccfg2.ServerKEMKey = &sid.KEM.Public
+				}
+				r2 := RunHandshake(srv2, ccfg2, w.NextAddr(), nil)
+				desc = fmt.Sprintf("%s: client(policy=%s) <- self-signed server whose key was %s in the client's authorized set (ops %q)", mode, pol, h.name, h.ops)
+				ok, sig, what = true, "", ""
+				if r2.CliOK() && !may {
+					ok, sig, what = false, "C01:client-completes-with-server-whose-key-is-not-in-the-authorized-set", "Client.Handshake returned nil although the server's key is not in the authorized set now ("+h.name+")"
+				} else if !r2.CliOK() && may {
+					ok, sig, what = false, "C01:honest-server-rejected", fmt.Sprintf("server whose key is in the set was rejected: %v", r2.Err)
+				}
+				specCase("C01", "authorized-set-history/client-verifies-server/"+mode, desc, ok, sig, what, !may)
+				r2.Close()
+			}
+		}
+	}
 }
